@@ -598,6 +598,11 @@ func lostKeyCase(seed uint64, variant int) string {
 	}
 	ctl, _ := one(0)
 	got, pos := one(variant)
+	if variant == 2 && pos == "-1,-1" {
+		// the reply did not make it within CursorPosition's own 50 ms deadline (loaded machine): the late reply is
+		// then indistinguishable from a key — not the schedule this variant is about, not judged
+		return "incomplete"
+	}
 	return fmt.Sprintf("ctl=%s got=%s pos=%s seq=%s", ctl, got, pos, hx.Hex(ks))
 }
 
